@@ -85,7 +85,9 @@ SubjectOf(t) == t.sub
 (*   - a token without exp                                                  *)
 (*   - iat in the future beyond the leeway (the code rejects, the statement *)
 (*     does not mention iat)                                                *)
-(*   - a JWK without alg member ("declared algorithm" does not exist)       *)
+(*   (a JWK without alg member was read as open at first; the statement's  *)
+(*   "the key's declared algorithm equals the token's alg" cannot hold for  *)
+(*   it, so no subject may come from such a key)                            *)
 (*   - a JWK with a certificate chain that does not validate                *)
 (*   - which key a kid selects when the statement's conditions hold for     *)
 (*     some key of the set but not for the kid-selected unique one          *)
@@ -94,7 +96,7 @@ OpenTime(t, a) == t.exp = <<>> \/ (t.iat # <<>> /\ t.iat[1] > a.leeway)
 (* the statement's necessary condition, read loosely at the open places    *)
 KeyCheckLoose(t, e, a) ==
   /\ SigOK(t, e)
-  /\ IF e.alg = Absent THEN TRUE ELSE AlgAgree(t, e) /\ AlgAllowed(t, a)
+  /\ AlgAgree(t, e) /\ AlgAllowed(t, a)
   /\ ClaimsOK(t, a)
 
 MayAccept(t, j, a) == \E i \in 1..Len(j) : KeyCheckLoose(t, j[i], a)
